@@ -30,7 +30,7 @@ func init() {
 		Rule: "case = a small batch of byte strings, each fed to EVERY public decode/unmarshal/universal entry point (one-shot functions from bytes and from readers, unmarshalers, decoders with receivers " +
 			"rules+null, rules+builder and bare builder, Marshal.EnforceRules on and off) with templates nil, []interface{}, map[string]int, struct, *int, string; input families: empty, all 256 one-byte strings, " +
 			"two-byte strings (quick: every 16th block, thorough: all 65536) with and without a valid header in front, random bytes, byte-mutated valid CBE/CTE, truncations, inflated length fields in every header kind, " +
-			"nesting to 200000 (CBE) / 20000 (CTE) levels, CTE token soup, extreme numbers (exponents to +-(2^31-1), coefficients around 2^63/2^64/10^20, megabit integers) unmarshaled into every numeric template kind; plus marshaling of supported and unsupported Go kinds. Each call runs in a worker process: observed outcomes are normal return (required), " +
+			"nesting to 200000 (CBE) / 20000 (CTE) levels, CTE token soup, extreme numbers (exponents to +-(2^31-1), coefficients around 2^63/2^64/10^20, megabit integers) unmarshaled into every numeric template kind, documents with long strings / media types / identifiers / arrays / nesting under configurations with low resource limits (rules on and off); plus marshaling of supported and unsupported Go kinds. Each call runs in a worker process: observed outcomes are normal return (required), " +
 			"escaped panic, process death (fatal error / OOM under RLIMIT_AS 4 GiB), runtime deadlock report, CPU budget exceeded. Non-trivial = input of >= 2 bytes that is not accepted; distinct = distinct inputs.",
 		Assumptions: []string{"a call that returns (value, error) in any combination is fine; only how it returns is judged", "CPU budget 60 s per batch of calls on one input (inputs are <= 600 KB)"},
 		Cases:       func(tier string) int { return c07OneByteCases + c07TwoByteCases + tierN(tier, 1500, 40000) },
@@ -38,7 +38,7 @@ func init() {
 		MemLimit:    4 << 30,
 		CPUBudget:   60,
 		Floors: func(tier string) map[string]int64 {
-			return map[string]int64{"calls": 50000, "inputs": 1500, "family.mutated-cbe": 100, "family.mutated-cte": 100, "family.inflated": 50, "family.deep": 4, "family.marshal": 50, "family.extreme-number": 50, "outcome.error": 10000, "outcome.value": 1000}
+			return map[string]int64{"calls": 50000, "inputs": 1500, "family.mutated-cbe": 100, "family.mutated-cte": 100, "family.inflated": 50, "family.deep": 4, "family.marshal": 50, "family.extreme-number": 50, "family.low-limits": 50, "outcome.error": 10000, "outcome.value": 1000}
 		},
 	})
 }
@@ -257,7 +257,7 @@ func runC07(c *fw.Ctx, idx int) {
 		}
 		return []byte{0x81, 0x00, 0x9a, 0x01, 0x9b}
 	}
-	switch k := (idx - c07OneByteCases - c07TwoByteCases) % 11; k {
+	switch k := (idx - c07OneByteCases - c07TwoByteCases) % 12; k {
 	case 0:
 		n := r.Intn(64)
 		c07AllEntryPoints(c, gen.RandBytes(r, n), "random")
@@ -286,18 +286,20 @@ func runC07(c *fw.Ctx, idx int) {
 		c07AllEntryPoints(c, []byte(sb.String()), "cte-token-soup")
 	case 8:
 		// deep nesting only on a few cases (expensive)
-		n := (idx - c07OneByteCases - c07TwoByteCases) / 11
+		n := (idx - c07OneByteCases - c07TwoByteCases) / 12
 		if n < 6 {
 			c07AllEntryPoints(c, c07Deep(c, n), "deep")
 		} else {
 			c07AllEntryPoints(c, validDoc(r.Intn(2) == 0), "valid")
 		}
 	case 9:
-		if (idx-c07OneByteCases-c07TwoByteCases)/11 == 0 {
+		if (idx-c07OneByteCases-c07TwoByteCases)/12 == 0 {
 			c07BigFloatProbe(c)
 			return
 		}
 		c07Numbers(c)
+	case 10:
+		c07LowLimits(c)
 	default:
 		c07Marshal(c)
 	}
